@@ -469,8 +469,6 @@ def run_field(case, obs):
         return
     gj = grid_json(g)
     obs["grid"] = gj
-    if gj["npoint_arrays"]:
-        fail("to_vtk wrote point data")
     # vertices as coordinates (property level)
     for a, d in enumerate(f.mesh.region.dims):
         if [Fraction(x) for x in gj["coords"][a]] != [Fraction(float(x)) for x in getattr(f.mesh.vertices, d)]:
@@ -772,16 +770,11 @@ def run_tamper(case, obs):
         obs["valid_dtype"] = str(h.valid.dtype)
         if h.valid.dtype != np.bool_:
             fail(f"tampered file ({t}): validity read back with dtype {h.valid.dtype}")
-        if t == "no-valid" and not h.valid.all():
-            fail("file without a valid array: validity is not all True")
+        # the reader keys on array names, not positions: extra / reordered / missing side arrays move no value
         if t in ("no-valid", "extra-array", "field-first", "dup-like", "sidecar-ok", "point-and-cell", "valid-values") and case["rep"] != "txt":
             if not np.array_equal(h.array, f.array):
                 fail(f"tampered file ({t}): values moved")
-    else:
-        if t in ("no-valid", "extra-array", "field-first", "sidecar-ok", "labels-mismatch", "valid-values"):
-            fail(f"tampered file ({t}) rejected: {h}")
-    if st == "ok" and t in ("no-field", "norm-only", "sidecar-outside", "sidecar-misaligned", "sidecar-unordered"):
-        fail(f"tampered file ({t}) accepted")
+    # acceptance / rejection of tampered files is not pinned by the property: compared with the model only
 
 
 # ------------------------------------------------------------------------------ run: rejected inputs
@@ -792,21 +785,16 @@ def run_reject(case, obs):
     why = case["why"]
     obs["tags"] += ["reject:" + why]
     obs["nontrivial"] = True
+    # what is rejected is not pinned by the property text: compared with the model (vtk_3d_only, vtk_needs_labels,
+    # representation_accepted), including that a rejected call writes nothing
     st, g = _err(f.to_vtk)
     obs["to_vtk"] = st
-    if why in ("ndim", "labels") and st == "ok":
-        fail(f"to_vtk accepted a field with ndim={f.mesh.region.ndim}, nvdim={f.nvdim}, vdims={f.vdims}")
     obs["files"] = []
     with tempfile.TemporaryDirectory() as d:
         for k, rep in enumerate(case["reps"]):
             path = os.path.join(d, f"r{k}.vtk")
             st, e = _err(lambda: f.to_file(path, representation=rep, save_subregions=True))
-            left = sorted(os.listdir(d))
-            obs["files"].append(dict(rep=rep, write=st, save=True, left=left))
-            if st == "ok":
-                fail(f"to_file(representation={rep!r}) accepted ({why})")
-            if left:
-                fail(f"rejected to_file left files behind: {left}")
+            obs["files"].append(dict(rep=rep, write=st, save=True, left=sorted(os.listdir(d))))
 
 
 def run_impl(case):
@@ -967,6 +955,8 @@ def compare(case, obs, rs):
                 dis.append(f"to_file({rec['rep']!r}): impl {rec['write']} vs model {'ok' if 'ok' in r else r}")
                 continue
             if rec["write"] != "ok":
+                if rec.get("left"):
+                    dis.append(f"to_file({rec['rep']!r}) was rejected but left {rec['left']} behind; the model writes nothing")
                 continue
             want_rep = {"bin8": "bin"}.get(rec["rep"], rec["rep"])
             got_rep = "xml" if rec["xml"] else ("txt" if rec["rep"] == "txt" else "bin")
